@@ -253,12 +253,13 @@ func (s *state) walk(node parse.Node) error {
 			defer func(name string) {
 				s.name = name
 			}(s.name)
-			s.name = name
 			s.blocks = append(s.blocks, tree.Blocks())
+			// The child's own top-level statements still belong to the child.
 			err = s.walkChild(node.BodyNode)
 			if err != nil {
 				return err
 			}
+			s.name = name
 			return s.walk(tree.Root())
 		}
 		return s.walk(node.BodyNode)
@@ -372,9 +373,10 @@ func (s *state) walkChild(node parse.Node) error {
 		}
 	case *parse.UseNode:
 		return s.walkUseNode(node)
-	case *parse.MacroNode, *parse.ImportNode, *parse.FromNode:
-		// Macros defined or imported at the top level of an extending template
-		// are available to the blocks of that template.
+	case *parse.MacroNode, *parse.ImportNode, *parse.FromNode, *parse.SetNode:
+		// Macros defined or imported and variables set at the top level of an
+		// extending template are available to the blocks of that template (and,
+		// the variables, to its ancestors).
 		return s.walk(node)
 	default:
 		// No need to handle other nodes. Apart from the above, this function only
